@@ -7,6 +7,8 @@ command -v java >/dev/null
 test -f /opt/veriftools/tla/tla2tools.jar
 /venv/bin/python -c "import spacepackets, crcmod" 
 for f in spec/*.tla; do
-  (cd spec && java -cp /opt/veriftools/tla/tla2tools.jar:/opt/veriftools/tla/CommunityModules-deps.jar tla2sany.SANY "$(basename "$f")" >/dev/null 2>&1) || { echo "SANY failed on $f"; exit 1; }
+  out=$(cd spec && java -cp /opt/veriftools/tla/tla2tools.jar:/opt/veriftools/tla/CommunityModules-deps.jar tla2sany.SANY "$(basename "$f")" 2>&1) || { echo "SANY failed on $f"; exit 1; }
+  # (SANY's exit status is 0 even when it reports semantic errors)
+  if printf '%s' "$out" | grep -q "Semantic errors\|\*\*\* Errors\|Parse Error\|Could not parse"; then echo "SANY reports errors in $f"; printf '%s\n' "$out" | grep -A6 "Errors" | head -20; exit 1; fi
 done
 echo setup ok
